@@ -2,6 +2,8 @@ package main
 
 import (
 	"bytes"
+	"crypto/sha256"
+	"encoding/hex"
 	"fmt"
 	"go/ast"
 	"go/parser"
@@ -9,6 +11,7 @@ import (
 	"go/token"
 	"os"
 	"path/filepath"
+	"regexp"
 	"sort"
 	"strings"
 )
@@ -44,7 +47,22 @@ func rbExpr(fset *token.FileSet, n ast.Node) string {
 		}
 		lines = append(lines, l)
 	}
-	return strings.TrimSpace(wsRe.ReplaceAllString(strings.Join(lines, " "), " "))
+	return rbStripHooks(strings.TrimSpace(wsRe.ReplaceAllString(strings.Join(lines, " "), " ")))
+}
+
+// verif hook call sites (`verifYield("point")`, single added lines, no-ops without the build tag) are instrumentation,
+// not the code under verification: they are removed before anything is classified or pinned.
+var rbHookRe = regexp.MustCompile(`verifYield\("[^"]*"\) ?`)
+
+func rbStripHooks(s string) string {
+	return strings.TrimSpace(wsRe.ReplaceAllString(rbHookRe.ReplaceAllString(s, ""), " "))
+}
+
+// rbPin: SHA-256 prefix of the normalised source of a declaration, hook call sites removed
+func rbPin(fset *token.FileSet, n ast.Node) (string, string) {
+	txt := rbExpr(fset, n)
+	h := sha256.Sum256([]byte(txt))
+	return hex.EncodeToString(h[:8]), txt
 }
 
 // rbBlockExit classifies how a guard body leaves: "return-error", "return-nil", "return", "continue", "break", "".
@@ -265,6 +283,9 @@ func rbClassifyRun(p *pkgSrc, fd *ast.FuncDecl) []string {
 	fset := p.fset
 	for _, s := range fd.Body.List {
 		txt := rbExpr(fset, s)
+		if txt == "" {
+			continue // a verif hook call site
+		}
 		switch st := s.(type) {
 		case *ast.AssignStmt:
 			switch {
@@ -736,7 +757,7 @@ func genRobust(r *repo) string {
 	var txts []string
 	for i, pn := range pinList {
 		fd := p.mustFunc(pn.recv, pn.name)
-		h, txt := pinOf(fset, funcNoDoc(fd))
+		h, txt := rbPin(fset, funcNoDoc(fd))
 		nm := pn.name
 		if pn.recv != "" {
 			nm = pn.recv + "." + pn.name
